@@ -773,6 +773,46 @@ func rowSites(lc *linCtx, s indexSite) (string, bool) {
 // ---------------------------------------------------------------------------
 // element facts
 
+// fullScanAt: idx is the index of a loop `for idx := range S` / `for idx := 0; idx < len(S); idx++`
+// that leaves only through its header test, and the block `at` is executed on every iteration:
+// whatever happens at `at` happens once for every index of S.
+func (lc *linCtx) fullScanAt(fn *ssa.Function, S, idx ssa.Value, at *ssa.BasicBlock) bool {
+	ok, _ := lc.fullScanLoopAt(fn, S, idx, at)
+	return ok
+}
+
+func (lc *linCtx) fullScanLoopAt(fn *ssa.Function, S, idx ssa.Value, at *ssa.BasicBlock) (bool, *ssa.BasicBlock) {
+	key := lc.canon(S)
+	for _, rl := range lc.rangeLoopsOver(fn, func(v ssa.Value) bool { return lc.canon(v) == key }) {
+		if stripConv(idx) != rl.idx {
+			continue
+		}
+		for b := range rl.lp.Blocks {
+			if b == rl.header {
+				continue
+			}
+			if len(b.Succs) == 0 {
+				return false, nil
+			}
+			for _, sc := range b.Succs {
+				if !rl.lp.Blocks[sc] {
+					return false, nil
+				}
+			}
+		}
+		if !rl.lp.Blocks[at] {
+			return false, nil
+		}
+		for _, p := range rl.header.Preds {
+			if rl.lp.Blocks[p] && !(at == p || at.Dominates(p)) {
+				return false, nil
+			}
+		}
+		return true, rl.header
+	}
+	return false, nil
+}
+
 // rangeLoopOver finds loops `for k := range S` (SSA: k=φ(-1,k+1); k+1 < len(S))
 // over the slice value S and returns, per loop, the element atom(s) loaded.
 type rangeLoop struct {
